@@ -203,14 +203,11 @@ impl WdlParser {
             {
                 file.version = WdlVersion::Legion;
             }
-            // If we have WMO chunks, it's pre-Legion
+            // If we have WMO chunks, it's pre-Legion - and not Vanilla, which carries no WMO
+            // chunks (see WdlVersion::has_wmo_chunks). Hole masks (MAHO) are optional per tile,
+            // so their absence says nothing about the version.
             else if mwmo_index.is_some() || mwid_index.is_some() || modf_index.is_some() {
-                // Check for MAHO to distinguish WotLK+ from Vanilla
-                if file.chunks.iter().any(|c| c.magic == MAHO_MAGIC) {
-                    file.version = WdlVersion::Wotlk;
-                } else {
-                    file.version = WdlVersion::Vanilla;
-                }
+                file.version = WdlVersion::Wotlk;
             }
             // Otherwise keep the parser's version
         }
